@@ -368,6 +368,40 @@ VARIANTS = [
                 "old": "        self.type_map[Vector2] = self.TUPLECOORD\n        self.type_map[Vector3] = self.TUPLECOORD\n"
                        "        self.type_map[Vector4] = self.TUPLECOORD\n        self.type_map[Quaternion] = self.TUPLECOORD\n",
                 "new": "        for klass in self._COORDS:\n            self.type_map[klass] = self.TUPLECOORD\n"}]},
+    # ------------------------------------------------------------------ round 6
+    {"name": "R7 binary parser instance shared at module level", "expect": "C12.R7",
+     "edits": [{"file": LLSD, "old": "def parse_binary(data: bytes):\n", "new": "_SHARED_PARSER = HippoLLSDBinaryParser()\n\n\ndef parse_binary(data: bytes):\n"},
+               {"file": LLSD, "old": "    return HippoLLSDBinaryParser().parse(data)\n", "new": "    return _SHARED_PARSER.parse(data)\n"}]},
+    {"name": "R7 buffered parser cached on the serializer class", "file": SER, "expect": "C12.R7",
+     "old": "        parser = BufferedLLSDBinaryParser()\n        return parser.parse(reader)\n",
+     "new": "        if getattr(cls, \"_parser\", None) is None:\n            cls._parser = BufferedLLSDBinaryParser()\n"
+            "        return cls._parser.parse(reader)\n"},
+    {"name": "P7 parser bound to a local before use", "file": LLSD, "expect": "silent",
+     "old": "    return HippoLLSDBinaryParser().parse(data)\n", "new": "    parser = HippoLLSDBinaryParser()\n    return parser.parse(data)\n"},
+    {"name": "R1 private copy taken only after the conversion loop", "expect": "C12.R1",
+     "edits": [{"file": MSGSER, "old": "        else:\n            llsd_val = copy.deepcopy(llsd_val)\n", "new": ""},
+               {"file": MSGSER, "old": "        return self._message_cls.from_dict(llsd_val)\n",
+                "new": "        return self._message_cls.from_dict(copy.deepcopy(llsd_val))\n"}]},
+    {"name": "R1 generator helper publishes its memo list before filling it", "expect": "C12.R1",
+     "edits": [{"file": MSGSER, "old": "        self._message_cls = message_cls\n",
+                "new": "        self._message_cls = message_cls\n        self._memo = {}\n"},
+               {"file": MSGSER, "old": "                for tmpl_var in tmpl_block.variables:\n"
+                                       "                    if tmpl_var.type in LLSDDataPacker.SPECS:\n"
+                                       "                        yield block, tmpl_var\n",
+                "new": "                for tmpl_var in self._packable(tmpl_block):\n                    yield block, tmpl_var\n"},
+               {"file": MSGSER, "old": "    def can_handle(self,",
+                "new": "    def _packable(self, tb):\n        if tb in self._memo:\n            yield from self._memo[tb]\n            return\n"
+                       "        found = self._memo[tb] = []\n        for v in tb.variables:\n"
+                       "            if v.type in LLSDDataPacker.SPECS:\n                found.append(v)\n                yield v\n\n"
+                       "    def can_handle(self,"}]},
+    {"name": "P1 generator helper without a memo", "expect": "silent",
+     "edits": [{"file": MSGSER, "old": "                for tmpl_var in tmpl_block.variables:\n"
+                                       "                    if tmpl_var.type in LLSDDataPacker.SPECS:\n"
+                                       "                        yield block, tmpl_var\n",
+                "new": "                for tmpl_var in self._packable(tmpl_block):\n                    yield block, tmpl_var\n"},
+               {"file": MSGSER, "old": "    def can_handle(self,",
+                "new": "    def _packable(self, tb):\n        for v in tb.variables:\n"
+                       "            if v.type in LLSDDataPacker.SPECS:\n                yield v\n\n    def can_handle(self,"}]},
     # ------------------------------------------------------------------ documented limits
     {"name": "X quaternion packed with two components (count still accepted by the constructor)", "file": PACK, "expect": "miss",
      "old": "MsgType.MVT_LLQuaternion: _make_llsd_tuplecoord_spec(Quaternion, needed_elems=3)",
